@@ -195,7 +195,7 @@ def known_findings():
 # execute one of its components is an ERROR (exit 2), never a silent pass: in the second seeded round a pasted block had made the
 # sequential replay of C17 unreachable and nothing reported it.
 _CONC_MODELS = [("YkConc program", 2), ("YkConc2 config", 3), ("YkConc3 config", 4), ("YkConc4 config", 3), ("YkConc5 config", 3), ("YkConc6 config", 2), ("YkConc7 config", 3),
-                ("step-level conformance of next layers", 4), ("step-level conformance of the interior split", 3),
+                ("step-level conformance of next layers", 4), ("step-level conformance of the interior split", 3), ("step-level conformance of two interior levels", 4),
                 ("step-level conformance of the root border split", 3), ("step-level conformance of border deletion", 3),
                 ("step-level conformance of split under a parent", 3), ("step-level conformance program", 2)]
 REQUIRED = {
